@@ -31,6 +31,8 @@ def run(rep, tier):
     rep.rule("R2", "to_native passes the fields in host H's types.CodeType positional order and is enabled exactly on the hosts whose selector picks the class")
     rep.rule("R5", "no function of xdis.codetype reachable from the public operations writes module-level, class-level or default-argument state or memoises a mutable result "
                    "(C18's rules R1 and R3, restated for this package): a conversion result does not depend on earlier conversions")
+    rep.rule("R6", "the constructor and check() of every portable class accept, without raising, the field record of a valid code object of each parameter-list shape "
+                   "(module, positional-only only, positional-only with *args/**kw, keyword-only, mixed, lambda, closure, generator; records written from CPython's code_new rules)")
     rep.rule("R4", "freeze() (run by to_native on its copy) never returns early on a flag it assigns itself and never rewrites an integer-valued field (co_flags, counts, first line)")
     rep.rule("R3", "replace() copies with deepcopy(self), sets fields on the copy only, returns the copy")
     ref = ref_json("codetype.json")["hosts"]
@@ -157,7 +159,8 @@ def run(rep, tier):
             raise AnalysisError("anchor vanished: %s" % q)
         me_r = Instance(Cr)
         consts0 = [Sym("c0")]
-        fields0 = dict(co_name=Sym("N0"), co_flags=Sym("FL"), co_code=Sym("code0"), co_consts=consts0, co_firstlineno=Sym("L0"))
+        names0 = [Sym("n0")]  # a field opened up as a list (the editing mode the class documents) and *not* replaced below
+        fields0 = dict(co_name=Sym("N0"), co_flags=Sym("FL"), co_code=Sym("code0"), co_consts=consts0, co_firstlineno=Sym("L0"), co_names=names0)
         me_r.attrs.update(fields0)
         try:
             out_r = Spec(F).run(fr, [me_r], {"co_name": Sym("N1"), "co_consts": [Sym("K1")]})
@@ -172,6 +175,10 @@ def run(rep, tier):
         orig_ok = all(me_r.attrs.get(k_) is v_ for k_, v_ in fields0.items()) and set(me_r.attrs) == set(fields0) and consts0 == [consts0[0]] and len(consts0) == 1
         rep.ob("R3", q, "mutates-only-the-copy", is_copy and orig_ok, expected="every field of the original unchanged", derived={k_: show(v_)[:30] for k_, v_ in me_r.attrs.items() if fields0.get(k_) is not v_} or "unchanged",
                msg="replace() must not alter the original")
+        shared = sorted(k_ for k_, v_ in fields0.items() if isinstance(v_, (list, dict, set)) and isinstance(new_r, Instance) and new_r.attrs.get(k_) is v_)
+        rep.ob("R3", q, "copy-shares-no-mutable-field", is_copy and not shared and names0 == [names0[0]] and isinstance(new_r, Instance) and new_r.attrs.get("co_names") == names0,
+               expected="a field held as a list and not replaced is an equal but separate list in the copy", derived=("shared with the original: %s" % shared) if shared else "separate",
+               msg="replace() returns an object that shares %s with the original: editing the copy in place alters the original (and what to_native() builds from it)" % (shared or "a field"))
         want_new = dict(fields0, co_name="N1", co_consts="[K1]")
         got_new = {k_: show(v_) for k_, v_ in (new_r.attrs.items() if isinstance(new_r, Instance) else [])}
         changed_ok = is_copy and got_new.get("co_name") == "N1" and got_new.get("co_consts") == "[K1]" and all(got_new.get(k_) == show(fields0[k_]) for k_ in ("co_flags", "co_code", "co_firstlineno")) \
@@ -186,6 +193,53 @@ def run(rep, tier):
         rep.ob("R3", q, "unknown-field-raises", kinds_b == ["exc('TypeError')"], expected="TypeError", derived=kinds_b,
                msg="replace() with a field the object does not have does not raise TypeError")
     rep.floor("replace() implementations", nrep, 1)
+    # ---------------------------------------------------------------- R6 the constructors' own validity checks accept valid field records
+    # Field records of valid code objects, one per parameter-list shape CPython's compiler produces (Objects/codeobject.c, code_new / _PyCode_Validate:
+    # co_argcount *includes* the positional-only parameters; co_argcount + co_kwonlyargcount + *args + **kw <= len(co_varnames); flags 0x04 VARARGS, 0x08 VARKEYWORDS).
+    base_rec = dict(co_nlocals=0, co_stacksize=1, co_code=b"d\x00S\x00", co_consts=(None,), co_names=(), co_filename="m.py", co_qualname="f", co_firstlineno=1, co_lnotab=b"\x00\x01",
+                    co_linetable=b"\x04\x01", co_exceptiontable=b"", co_freevars=(), co_cellvars=())
+    WITNESSES = [
+        ("module", dict(co_argcount=0, co_posonlyargcount=0, co_kwonlyargcount=0, co_flags=0x40, co_varnames=(), co_name="<module>")),
+        ("def f(a, /)", dict(co_argcount=1, co_posonlyargcount=1, co_kwonlyargcount=0, co_flags=0x43, co_varnames=("a",), co_nlocals=1, co_name="f")),
+        ("def f(a, b, c, /)", dict(co_argcount=3, co_posonlyargcount=3, co_kwonlyargcount=0, co_flags=0x43, co_varnames=("a", "b", "c"), co_nlocals=3, co_name="f")),
+        ("def g(self, /, *args, **kw)", dict(co_argcount=1, co_posonlyargcount=1, co_kwonlyargcount=0, co_flags=0x4F, co_varnames=("self", "args", "kw"), co_nlocals=3, co_name="g")),
+        ("def h(a, b=1, *, c, d=2)", dict(co_argcount=2, co_posonlyargcount=0, co_kwonlyargcount=2, co_flags=0x43, co_varnames=("a", "b", "c", "d"), co_nlocals=4, co_name="h")),
+        ("def k(a, /, b, *, c)", dict(co_argcount=2, co_posonlyargcount=1, co_kwonlyargcount=1, co_flags=0x43, co_varnames=("a", "b", "c"), co_nlocals=3, co_name="k")),
+        ("lambda x, /: x", dict(co_argcount=1, co_posonlyargcount=1, co_kwonlyargcount=0, co_flags=0x43, co_varnames=("x",), co_nlocals=1, co_name="<lambda>")),
+        ("closure", dict(co_argcount=1, co_posonlyargcount=0, co_kwonlyargcount=0, co_flags=0x13, co_varnames=("a", "t"), co_nlocals=2, co_name="inner", co_freevars=("y",), co_cellvars=("z",))),
+        ("generator, no parameters, one local", dict(co_argcount=0, co_posonlyargcount=0, co_kwonlyargcount=0, co_flags=0x63, co_varnames=("i",), co_nlocals=1, co_name="gen")),
+    ]
+    n6 = 0
+    for mod, cname in (("xdis.codetype.code13", "Code13"), ("xdis.codetype.code15", "Code15"), ("xdis.codetype.code20", "Code2"), ("xdis.codetype.code30", "Code3"),
+                       ("xdis.codetype.code38", "Code38"), ("xdis.codetype.code310", "Code310"), ("xdis.codetype.code311", "Code311")):
+        C6 = F.load(mod).ns.get(cname)
+        ini6 = C6.lookup("__init__") if isinstance(C6, ClassRef) else None
+        chk6 = C6.lookup("check") if isinstance(C6, ClassRef) else None
+        if not isinstance(ini6, FuncRef):
+            raise AnalysisError("anchor vanished: %s.%s.__init__" % (mod, cname))
+        pnames = [a.arg for a in ini6.node.args.args[1:]]
+        for label, rec in WITNESSES:
+            full = dict(base_rec, **rec)
+            missing = [p_ for p_ in pnames if p_ not in full]
+            if missing:
+                raise AnalysisError("%s.__init__ takes %s, which the witness records do not define" % (cname, missing))
+            me6 = Instance(C6)
+            refused = []
+            try:
+                outs = [("constructor", Spec(F).run(ini6, [me6], {k_: full[k_] for k_ in pnames}))]
+                if isinstance(chk6, FuncRef):
+                    outs.append(("check()", Spec(F).run(chk6, [me6], {})))
+                for what, o_ in outs:
+                    for g_, l_ in leaves(o_):
+                        if isinstance(l_, Raise) and not g_:
+                            refused.append("%s raises %s" % (what, show(l_.exc)[:60]))
+            except Exception as ex:
+                refused.append("raises %s: %s" % (type(ex).__name__, str(ex)[:80]))
+            n6 += 1
+            rep.ob("R6", (chk6 or ini6).qualname if refused and "check" in refused[0] else ini6.qualname, "%s:accepts:%s" % (cname, label), not refused,
+                   expected="the field record of a valid code object is accepted", derived=refused[:2] or "accepted",
+                   msg="%s refuses the fields of `%s` (%s): such a native code object cannot be converted at all" % (cname, label, "; ".join(refused[:1])))
+    rep.floor("constructor validity checks decided on witness records", n6, 60)
     # ---------------------------------------------------------------- R4 freeze(), which to_native() runs on its copy, is a pure normalisation
     from .c19 import freeze_discipline
     freeze_discipline(rep, repo, "R4")
